@@ -95,6 +95,13 @@ impl Prop for C01 {
             RefEnc::Refuse(_) => return r, // not a packet; C16's business
             RefEnc::Packet(p) => p,
         };
+        r.label(kind);
+        if call.cc().map(|c| c != 0).unwrap_or(false) {
+            r.label("resp_nonsuccess");
+        }
+        if !case.recv_hist.is_empty() {
+            r.label("recv_with_history");
+        }
         // sender context kept alive so that it can decode its own packet
         let store = CtxStore::new(&CtxCfg { addr: env.addr, msg_types: vec![], vendors: vec![(0, 0x1234, 0xAB)] });
         let sender = store.ctx();
@@ -108,10 +115,6 @@ impl Prop for C01 {
             return r; // C04 reports bad lengths
         }
         r.nontrivial = true;
-        r.label(kind);
-        if call.cc().map(|c| c != 0).unwrap_or(false) {
-            r.label("resp_nonsuccess");
-        }
         let Some(want) = expected(call, len) else { return r };
         let pkt = &buf[..len];
 
@@ -122,9 +125,6 @@ impl Prop for C01 {
         let mut rctx = rstore.ctx();
         for op in &case.recv_hist {
             let _ = sut::apply_op(&mut rctx, op);
-        }
-        if !case.recv_hist.is_empty() {
-            r.label("recv_with_history");
         }
         let outcomes = [("sender", sut::decode(&sender, pkt)), ("default", sut::decode(&dctx, pkt)), ("configured", sut::decode(&rctx, pkt))];
         for (who, got) in outcomes.iter() {
